@@ -107,6 +107,7 @@ Fixpoint sexp_val (fuel : nat) (x : sexp) : option gval :=
         else if atom_is t "strver" then option_map (fun b => GStringer (Some b)) (atom_bytes v)
         else if atom_is t "strverptr" then option_map (fun b => GStringer (Some b)) (atom_bytes v)
         else if atom_is t "strsame" then option_map (fun b => GStringer (Some b)) (atom_bytes v)
+        else if atom_is t "strtm" then option_map (fun b => GStringer (Some b)) (atom_bytes v)
         else if atom_is t "strreent" then option_map (fun b => GStringer (Some b)) (atom_bytes v)
         else if atom_is t "o" then option_map GOther (atom_N v)
         else None
@@ -246,7 +247,7 @@ Definition sexp_optype (a : bytes) : option optype :=
 Definition sexp_eop (x : sexp) : option eop :=
   match x with
   | Atom a => if atom_is a "r" then Some OpReset else if atom_is a "d" then Some OpLastDebugErr else None
-  | SList [Atom a; o] => if atom_is a "p" || atom_is a "q" then option_map OpProcess (sexp_obj o) else None
+  | SList [Atom a; o] => if atom_is a "p" || atom_is a "q" || atom_is a "n" then option_map OpProcess (sexp_obj o) else None
   | _ => None
   end.
 
@@ -347,7 +348,8 @@ Definition run_case (x : sexp) : bytes :=
       else if atom_is k "hist" then
         match atom_bytes rule, o with
         | Some r, SList ops =>
-            match map_opt' sexp_eop ops with
+            (* (u obj): the caller changes its own object in place and calls nothing - not an operation of the evaluator *)
+            match map_opt' sexp_eop (filter (fun x => match x with SList [Atom a; _] => negb (atom_is a "u") | _ => true end) ops) with
             | Some eops => id ++ kv "out" (join [59] (map peout (erun go_lower (new_evaluator r) eops)))
             | None => id ++ bad
             end
